@@ -17,19 +17,9 @@ Section Engine.
   Notation set_in := (set_in crc).
   Notation set_props := (set_props crc).
 
-  (** What one pass reports ([refreshFiltersIntl]): the number of updated
-      lists and "network error" (every attempted list of some array failed). *)
-  Definition pass_report (b a force : bool) (due : N -> bool) (oc : N -> outcome) (st : rstate) : N * bool :=
-    let '(n1, e1, bl, fs1) :=
-      if b then refresh_array (r_block st) force due oc (r_files st)
-      else (0, false, r_block st, r_files st) in
-    let '(n2, e2, al, fs2) :=
-      if a then refresh_array (r_allow st) force due oc fs1
-      else (0, false, r_allow st, fs1) in
-    (n1 + n2, e1 || e2).
-
-  Definition pass_updated b a force due oc st : N := fst (pass_report b a force due oc st).
-  Definition pass_net_error b a force due oc st : bool := snd (pass_report b a force due oc st).
+  Notation pass_report := (pass_report crc).
+  Notation pass_updated := (pass_updated crc).
+  Notation pass_net_error := (pass_net_error crc).
 
   Lemma refresh_engine b a force due oc st :
     r_engine (refresh b a force due oc st) =
@@ -37,7 +27,7 @@ Section Engine.
     else if pass_updated b a force due oc st =? 0 then r_engine st
     else let st' := refresh b a force due oc st in rebuild (r_block st') (r_allow st') (r_files st').
   Proof.
-    unfold Refresh.refresh, pass_net_error, pass_updated, pass_report.
+    unfold Refresh.refresh, Refresh.pass_net_error, Refresh.pass_updated, Refresh.pass_report.
     destruct (if b then _ else _) as [[[n1 e1] bl] fs1].
     destruct (if a then _ else _) as [[[n2 e2] al] fs2].
     cbn [fst snd r_engine r_block r_allow r_files].
@@ -134,7 +124,7 @@ Section Engine.
     pass_net_error b a force due oc st = false -> pass_updated b a force due oc st = 0 ->
     refresh b a force due oc st = st.
   Proof.
-    unfold pass_net_error, pass_updated, pass_report, Refresh.refresh.
+    unfold Refresh.pass_net_error, Refresh.pass_updated, Refresh.pass_report, Refresh.refresh.
     assert (H1 : forall n1 e1 bl fs1,
                (if b then refresh_array (r_block st) force due oc (r_files st)
                 else (0, false, r_block st, r_files st)) = (n1, e1, bl, fs1) ->
